@@ -21,7 +21,7 @@ CLAIMED = {
          "MPCalContext.commit calls PreCommit on every touched resource before any Commit (ordering obligation at every Commit call), commits none and keeps the dirty set intact if any pre-commit yields an error, otherwise commits all and empties the set; "
          "MPCalContext.abort calls Abort on every touched resource and empties the set; ArchetypeInterface.Read/Write put the handle into the dirty set before the resource or any sub-resource is touched (obligation at every Index/ReadValue/WriteValue call). "
          "Resources are called through an open-world interface contract (anything may change except the context's own bookkeeping).",
-         "NOT covered, hence not decided: MPCalContext.Run's retry loop itself (select + dynamically dispatched section body), and the refinement of the interface contract by the resources of package resources (IncMap, HashMap, channels, mailboxes, localshared, persistent, file, CRDT, 2PC, nested archetype) and systems/raftkvs; "
+         "MPCalContext.Run's retry loop is under contract too (the section body is a dynamically dispatched call with an assumed open-world contract): commit and abort are only ever called on a well-formed context with every dirty handle registered, abort exactly when the body or commit reported ErrCriticalSectionAborted, and an exit request is honoured only between attempts. NOT covered, hence not decided: the refinement of the interface contract by the resources of package resources (IncMap, HashMap, channels, mailboxes, localshared, persistent, file, CRDT, 2PC, nested archetype) and systems/raftkvs; "
          "trace.* and VClockSink are given frame-only assumed contracts; calls through ArchetypeResource assume implementations outside package distsys cannot touch MPCalContext's unexported fields (Go visibility); the composition 'protocol + per-resource snapshot => atomicity' is the argument of DESIGN.md section 3 (C01), not a mechanised lemma.",
          "contract-based deductive verification: WP over go/ssa, open-world interface contracts with call-tracking ghost sets, seen-set invariants for map ranges, z3/cvc5"),
  "C05": ("Deductive proof that Value.Equal decides equality of the abstract value (hence is an equivalence and ignores construction order) for all seven representations including the causal wrapper, and that Value.Hash and ValueHasher compute a function H of the abstract value "
@@ -29,11 +29,16 @@ CLAIMED = {
          "abs is defined by the representation axioms rep*; H is defined by the axioms hashOfDef/xorOn*/tupHash* (folds over unordered collections axiomatised by their insert step); Len() of immutable maps is the cardinality of the key set (assumed); fnv1a functions are pure. "
          "NOT covered: gob encode/decode round trip, String() as a TLA+ expression, hashmap.HashMap (these clauses of the statement are not decided by this check).",
          "contract-based deductive verification: closed-world dispatch over the representation types, seen-set loop invariants, z3/cvc5"),
+ "C04": ("Deductive proof of the procedure-call frame discipline of ArchetypeInterface over the abstract value of the '.stack' and '.pc' locals: Call pushes exactly one record holding '.pc' = the return label and, for every state variable of the callee, its previous value (or the nil value when the variable did not exist yet), leaves all frames below and every local that is not a state variable of the callee untouched, writes the arguments and jumps to the callee's label; "
+         "Return pops exactly the top frame, restores every saved variable and '.pc' from it and leaves the rest of the stack unchanged; TailCall keeps the height, the frames below and the return label of the replaced frame; Goto writes only '.pc'. Loops over state variables / saved frames are proved with unbounded invariants (seen-set for the record iteration).",
+         "requires distinct handles to denote distinct local resources and the state-variable names of a procedure to be pairwise different, different from '.stack'/'.pc' (svOK: assumed of the generated procTable, not proved of the compiler); the procedure's PreAmble is a dynamically dispatched call with an assumed open-world contract; two genuine defects were repaired first (fix: cb880fd8, 4e2075a7). "
+         "Proof hints (/verif/hints.json: unsat cores of earlier runs) select the hypotheses offered to the solver first; the full VC is the fallback and soundness does not depend on the file.",
+         "contract-based deductive verification: WP over go/ssa, unbounded loop invariants with cut assertions, abstract-value contracts of the tla layer, z3/cvc5"),
  "C12": ("Deductive proof for the grow-only counter: Init/Read/Write/Merge against the partial-map view (Merge = pointwise max on the union of keys, Write adds to one slot, Read = wrapped sum), and, as pure lemmas over those contracts, that Merge is commutative, associative and idempotent and Write (non-negative, no overflow) is an inflation.",
          "NOT covered: AWORSet, LWWSet and their gob pairs (not decided by this check; two genuine defects in them are recorded in DESIGN.md section 4 from probes, not from this check); the sum over an unordered map is axiomatised by its insert step; counts are int32 with wrap-around modelled.",
          "contract-based deductive verification: functional contracts + semilattice lemmas, z3/cvc5"),
  "C17": ("Deductive proof, by a monitor invariant on runStateLock (thread-modular: every lock region re-establishes it, so every interleaving of Stop/Run regions does), that at most one exit request is ever sent (so the send under the lock cannot block), awaitExit is closed at most once and only when the context leaves or skips the running phase, a second Run is refused, and that cleanupResources calls Close on every registered resource.",
-         "sync.Mutex gives mutual exclusion; channels are modelled by ghost capacity / total-sends / closed state; requestExit is written only by the running Run (declared 'keeps'); Run's loop body, the blocking behaviour of '<-awaitExit' (liveness: every Stop returns) and map-resource element Close (IncMap/HashMap) are NOT covered.",
+         "sync.Mutex gives mutual exclusion; channels are modelled by ghost capacity / total-sends / closed state; requestExit is written only by the running Run (declared 'keeps'); Stop's postcondition closed(awaitExit) rests on the declared (and checked at every send site of the package) fact that awaitExit is never sent on; termination of the wait in Stop (liveness) and map-resource element Close (IncMap/HashMap) are NOT covered.",
          "contract-based deductive verification: monitor invariants (Owicki-Gries style) over go/ssa, ghost channel state, z3/cvc5"),
 }
 
@@ -86,7 +91,7 @@ def main():
                      "kind_free_text": "contract-based deductive verifier for Go written for this task: VC generation over go/ssa from /repo's working tree, contracts in //@ comments, obligations discharged by z3 4.8.12 / z3 5.1.0 / cvc5 1.0"}],
         "checks": checks,
         "not_applicable": na,
-        "notes": "Every check regenerates all verification conditions from /repo's current working tree; nothing is cached between runs. known_findings.txt lists genuine defects by obligation name.",
+        "notes": "Every check regenerates all verification conditions from /repo's current working tree; no verdict is cached between runs; hints.json only orders the hypotheses tried first (a subset of the freshly generated hypotheses, so a stale hint can cost time but never soundness). known_findings.txt lists genuine defects by obligation name.",
     }
     json.dump(m, open("/verif/MANIFEST.json", "w"), indent=1)
     print("claimed:", sorted(CLAIMED), "not claimed:", [x["property_id"] for x in na])
